@@ -11,10 +11,12 @@ from harness.props.c04 import compare_factor
 
 OBLIGATIONS = [
     "PgmVerif.C02_update_preserves_measure", "PgmVerif.C02_two_clique_exact", "PgmVerif.C02_sepset_agreement_after_update",
+    "PgmVerif.C02_calibrated_tree_exact", "PgmVerif.C02_calibrated_tree_marginal",
 ]
-PARTIAL = ["calibrated + running intersection => clique beliefs are marginals (K&F Thm 10.4) is proved for two cliques only; for general trees "
-           "and for the code's message schedule the claim is decided per case: the implementation's final beliefs are compared with the "
-           "exact (max-)marginals of the Lean spec",
+PARTIAL = ["calibrated + running intersection => clique beliefs are marginals (K&F Thm 10.4) is proved for sum-calibration of any tree given in "
+           "a leaf-peeling order with strictly positive sepset beliefs; the max-calibration analogue, zero sepset entries (0/0 = 0 convention) and "
+           "the fact that the code's two-pass schedule reaches calibration are decided per case: the implementation's final beliefs are "
+           "compared with the exact (max-)marginals of the Lean spec",
            "networkx find_cliques / spanning tree are validated per case by the model's decidable tree / running-intersection predicates"]
 RULE = ("connected models of the four kinds (BN, MarkovNetwork, FactorGraph, JunctionTree) with 2-5 variables, cards 2-3, unary / duplicate "
         "factors, string / int / permuted state names; calibrate and max_calibrate beliefs vs exact (max-)marginals; queries with evidence by "
@@ -22,12 +24,13 @@ RULE = ("connected models of the four kinds (BN, MarkovNetwork, FactorGraph, Jun
 ASSUMPTIONS = ["interaction graph connected (the library rejects disconnected clique trees by design)"]
 BUDGET_QUICK = 90
 LEVEL_TEXT = ("Kernel-checked: a belief-update message preserves the clique-tree measure (prod beliefs = prod sepsets x prod factors) pointwise "
-              "for ANY message schedule, makes the receiver agree with the sender on the sepset, and for two cliques calibration implies the "
-              "beliefs are the exact marginals. General trees and the implementation's schedule are decided per case: clique and sepset "
+              "for ANY message schedule, makes the receiver agree with the sender on the sepset, and - for every tree with the running-intersection "
+              "property, any number of cliques, positive sepset beliefs - calibration implies that each clique belief is the exact marginal "
+              "of the measure (C02_calibrated_tree_exact). That the implementation's schedule reaches calibration, max-calibration and zeros are decided per case: clique and sepset "
               "beliefs after calibrate / max_calibrate are compared with the exact (max-)marginals of the brute-force spec, adjacent cliques "
               "must agree, every BP query (evidence by state name, all four model kinds) must equal the brute-force posterior; 6 hash seeds.")
 LEVEL_NOTE = "Trusted: Lean kernel + standard axioms; model; harness; networkx clique enumeration / spanning tree (outputs validated per case)."
-TECHNIQUE = "Lean 4 proof (belief-update invariant, two-clique exactness) + differential check of beliefs and queries against the exact joint"
+TECHNIQUE = "Lean 4 proof (belief-update invariant, calibrated tree => exact marginals) + differential check of beliefs and queries against the exact joint"
 
 
 def build(case, kind):
@@ -62,18 +65,26 @@ def proportional(phi, mrep, names, card, labels, tol=1e-9):
 # ----------------------------------------------------------------------------- calibration
 def gen_calib(rng, tier):
     kind = rng.choice(["mn", "mn", "fg", "jt", "bn"])
+    cyc = rng.random() < .2          # long chordless cycles / grid: cascaded fill-in edges of the triangulation
     if kind == "bn":
-        for _ in range(30):
-            case = gen.rand_bn(rng, nmin=2, nmax=5, maxcard=3, name_kind=rng.choice(["str", "word", "int"]), mincard=2)
-            from harness.props.c03 import connected
-            if connected(len(case["nodes"]), case["edges"]):
-                break
+        if cyc:
+            case = gen.rand_bn(rng, nmin=6, nmax=8, maxcard=2, name_kind=rng.choice(["str", "word", "int"]), mincard=2, shape="ring",
+                               dup=False)
         else:
-            return None
+            for _ in range(30):
+                case = gen.rand_bn(rng, nmin=2, nmax=5, maxcard=3, name_kind=rng.choice(["str", "word", "int"]), mincard=2)
+                from harness.props.c03 import connected
+                if connected(len(case["nodes"]), case["edges"]):
+                    break
+            else:
+                return None
+    elif cyc:
+        case = mnet.gen_cycle_case(rng, grid=rng.random() < .12)
     else:
         case = mnet.gen_mn_case(rng, dup=False if kind == "fg" else None)
     case["kind"] = kind
     case["op"] = rng.choice(["sum", "sum", "max"])
+    case["heur"] = rng.choice([None, None, "H1", "H2", "H3", "H4", "H5", "H6"]) if kind in ("mn", "jt") else None
     return case
 
 
@@ -91,7 +102,19 @@ def run_calib(case, drv):
             return skip("factor graphs cannot hold two equal factors")
         model = build(case, kind)
         fs = mnet.model_factors(case)
-    tags = dict(kind=kind, op=case["op"], dup=case.get("dup", False))
+    tags = dict(kind=kind, op=case["op"], dup=case.get("dup", False), cycle=bool(case.get("cycle") or case.get("shape") == "ring"),
+                heur=str(case.get("heur")))
+    if case.get("heur") and kind in ("mn", "jt"):
+        # every triangulation heuristic must return a chordal supergraph (the junction tree is built from it)
+        try:
+            mn0 = mnet.to_markov(case)
+            tri = mn0.triangulate(heuristic=case["heur"], inplace=False)
+            te = [[pn.index(u), pn.index(v)] for u, v in tri.edges()]
+        except Exception as e:
+            return fail(f"triangulate(heuristic={case['heur']}) raised {type(e).__name__}: {e}", **tags)
+        ug = drv.call("ug_check", nodes=list(range(n)), edges=te, orig=[list(e) for e in mnet.edges_of(case)])
+        if not (ug["chordal"] and ug["supergraph"]):
+            return fail(f"triangulate(heuristic={case['heur']}) is not a chordal supergraph: {ug} edges {te}", **tags)
     try:
         bp = BeliefPropagation(model)
         if case["op"] == "sum":
@@ -192,7 +215,100 @@ def run_query(case, drv):
     return ok(nontrivial=len(case["ev"]) > 0 or n > 2, **tags)
 
 
+# ----------------------------------------------------------------------------- one engine object, a history of calls
+def gen_history(rng, tier):
+    case = gen_calib(rng, tier)
+    if case is None:
+        return None
+    n = len(case["nodes"])
+    ops = []
+    for _ in range(rng.randint(2, 5)):
+        k = rng.choice(["calibrate", "max_calibrate", "query", "query", "map_query", "beliefs"])
+        if k in ("query", "map_query"):
+            q = rng.sample(range(n), rng.randint(1, min(2, n)))
+            rest = [v for v in range(n) if v not in q]
+            ev = rng.sample(rest, min(len(rest), rng.choice([0, 0, 1, 2])))
+            ops.append({"op": k, "q": q, "ev": [[v, rng.randrange(case["card"][v])] for v in ev], "joint": rng.random() < .6})
+        else:
+            ops.append({"op": k})
+    case["ops"] = ops
+    return case
+
+
+def run_history(case, drv):
+    """calibrate / max_calibrate / query / map_query in any order on ONE BeliefPropagation object: every answer must be the exact one"""
+    from pgmpy.inference import BeliefPropagation
+    from harness.props.c03 import check_assignment
+    kind = case["kind"]
+    names, card, labels = case["nodes"], case["card"], case["labels"]
+    pn = [gen.lab(x) for x in names]
+    n = len(names)
+    if kind == "bn":
+        model = gen.bn_to_pgmpy(case)
+        fs = gen.bn_model_factors(case)
+    else:
+        if kind == "fg" and mnet.has_equal_factors(case):
+            return skip("factor graphs cannot hold two equal factors")
+        model = build(case, kind)
+        fs = mnet.model_factors(case)
+    if Fraction(drv.call("bn_posterior", fs=fs, vars=list(range(n)), cards=card, q=[], ev=[])["pe"]) == 0:
+        return skip("zero partition function")
+    seq = "+".join(o["op"] for o in case["ops"])
+    tags = dict(kind=kind, nops=len(case["ops"]), first=case["ops"][0]["op"])
+    try:
+        bp = BeliefPropagation(model)
+    except Exception as e:
+        return fail(f"BeliefPropagation({kind}) raised {type(e).__name__}: {e}", **tags)
+    last_cal = None
+    for i, o in enumerate(case["ops"]):
+        where = f"step {i} ({o['op']}) of {seq} on {kind}"
+        try:
+            if o["op"] == "calibrate":
+                bp.calibrate(); last_cal = "sum"
+            elif o["op"] == "max_calibrate":
+                bp.max_calibrate(); last_cal = "max"
+            elif o["op"] == "beliefs":
+                if last_cal is None:
+                    continue
+                cb = bp.get_clique_beliefs()
+                for c in list(bp.junction_tree.nodes()):
+                    q = [pn.index(v) for v in c]
+                    if last_cal == "sum":
+                        m = drv.call("bn_posterior", fs=fs, vars=list(range(n)), cards=card, q=q, ev=[])["post"]
+                    else:
+                        m = drv.call("max_marginal", fs=fs, vars=list(range(n)), cards=card, q=q)
+                    err = proportional(cb[c], m, names, card, labels)
+                    if err:
+                        return fail(f"{where}: belief of clique {c} after {last_cal}-calibration: {err}", **tags)
+            else:
+                m = drv.call("bn_posterior", fs=fs, vars=list(range(n)), cards=card, q=o["q"], ev=o["ev"])
+                if Fraction(m["pe"]) == 0:
+                    continue
+                evidence = {pn[v]: gen.lab(labels[v][k]) for v, k in o["ev"]}
+                if o["op"] == "query":
+                    res = bp.query([pn[v] for v in o["q"]], evidence=evidence or None, joint=o["joint"], show_progress=False)
+                    if o["joint"]:
+                        err = proportional(res, m["post"], names, card, labels)
+                    else:
+                        err = None
+                        for v in o["q"]:
+                            mv = drv.call("f_marginalize", f=m["post"], vars=[w for w in o["q"] if w != v])
+                            err = err or proportional(res[pn[v]], mv, names, card, labels)
+                    if err:
+                        return fail(f"{where}: query {[pn[v] for v in o['q']]} | {evidence}: {err}", **tags)
+                else:
+                    res = bp.map_query([pn[v] for v in o["q"]], evidence=evidence or None, show_progress=False)
+                    err = check_assignment(res, case, m, names, card, labels, o["q"])
+                    if err:
+                        return fail(f"{where}: map_query {[pn[v] for v in o['q']]} | {evidence}: {err}", **tags)
+                last_cal = None      # queries re-initialise the engine; stored beliefs are unspecified afterwards
+        except Exception as e:
+            return fail(f"{where} raised {type(e).__name__}: {e}", **tags)
+    return ok(nontrivial=len(case["ops"]) >= 2, **tags)
+
+
 STREAMS = [
     Stream("calibrate", gen_calib, run_calib, quick=500, thorough=6000),
     Stream("query", gen_query, run_query, quick=900, thorough=10000),
+    Stream("history", gen_history, run_history, quick=500, thorough=5000),
 ]
